@@ -9,6 +9,7 @@ import (
 	"runtime/debug"
 	"sort"
 	"strconv"
+	"strings"
 	"time"
 )
 
@@ -47,6 +48,8 @@ func main() {
 	verif := flag.String("verif", "", "verif dir (default: parent of the binary's dir)")
 	replay := flag.String("replay", "", "replay file written by an earlier run")
 	list := flag.Bool("list", false, "list properties")
+	listRules := flag.Bool("list-rules", false, "list properties with the rules they own")
+	flag.BoolVar(&dumpObligs, "dump", false, "print every obligation with its verdict")
 	manifest := flag.Bool("manifest", false, "print MANIFEST.json generated from the registry")
 	flag.Parse()
 	// The offline toolchain recipe (same as env.sh), so that registered
@@ -59,6 +62,17 @@ func main() {
 	os.Setenv("GOPROXY", "off")
 	os.Setenv("GOSUMDB", "off")
 	os.Unsetenv("GOWORK")
+	if *listRules {
+		ids := []string{}
+		for id := range registry {
+			ids = append(ids, id)
+		}
+		sort.Strings(ids)
+		for _, id := range ids {
+			fmt.Println(id, strings.Join(registry[id].Rules, " "))
+		}
+		return
+	}
 	if *manifest {
 		printManifest()
 		return
